@@ -235,8 +235,14 @@ func c13Refcount(p *chk.Prog, r *chk.Report) {
 		x.Check("SetBalancer:append-and-increment-sites", f.Pos(), len(apps) == 1 && len(incs) == 1, "", "expected one append to a.ips[name] and one increment of the address's reference count")
 		if len(apps) == 1 && len(incs) == 1 {
 			// every path through the append passes the increment before exit, and vice versa
+			// the two go together, in either order: whoever comes first is always followed by the other, whoever comes
+			// second is only reached through the first
 			w1 := g.MustPass(apps[0], nil, true, inc)
 			w2 := g.MustPass(chk.Site{}, func(n ast.Node) bool { return n == incs[0].Top }, false, app)
+			if w1.Found || w2.Found {
+				w1 = g.MustPass(incs[0], nil, true, app)
+				w2 = g.MustPass(chk.Site{}, func(n ast.Node) bool { return n == apps[0].Top }, false, inc)
+			}
 			x.Check("SetBalancer:append-iff-increment", apps[0].Pos(), !w1.Found && !w2.Found, "", "an advertisement can be stored without counting the address, or the address counted without storing the advertisement")
 			// at most once: no loop contains them
 			x.Check("SetBalancer:counted-once", incs[0].Pos(), f.LoopOf(incs[0].Node) == nil && f.LoopOf(apps[0].Node) == nil, "", "the reference count can be incremented more than once per call")
@@ -395,7 +401,7 @@ func c13Gratuitous(p *chk.Prog, r *chk.Report) {
 	sites := g.FindPat("CL.Gratuitous(IP)")
 	x.Check("gratuitous:send-sites", f.Pos(), len(sites) == 2, "", "expected the ARP and the NDP send site")
 	for _, s := range sites {
-		cl := s.Node.(*ast.CallExpr).Fun.(*ast.SelectorExpr).X
+		cl := ast.Unparen(s.Node.(*ast.CallExpr).Fun).(*ast.SelectorExpr).X
 		ip := s.Node.(*ast.CallExpr).Args[0]
 		sameCl := func(e ast.Expr) bool { return f.SameExpr(e, cl) }
 		ipOK := definedBy(g, "A.ip", chk.H("A", adv))(ip)
